@@ -197,7 +197,7 @@ impl Mac {
                 // while assembling the frame.
                 let frame_len =
                     1 + 7 + session.uplink.mac_commands().len() + 1 + send_data.data.len() + 4;
-                if frame_len >= N || frame_len > 255 {
+                if frame_len > N || frame_len > 255 {
                     return Err(Error::PayloadTooLarge);
                 }
                 Ok(session.prepare_buffer::<N>(send_data, buf, &self.configuration, &self.region))
